@@ -121,11 +121,15 @@ def specZero (p : Cluster × Int) : Bool := (p.2 = 0) = (p.1.weight = 0)
 /-- strictly smaller configured share per replica never gets a larger server weight -/
 def specOrder (p q : Cluster × Int) : Bool := ratio p.1 < ratio q.1 → p.2 ≤ q.2
 /-- proportionality up to integer rounding: the weight of the group with the smaller
-per-replica share is within one unit of the proportional value -/
+per-replica share is within `1 + 1/1024` units of the proportional value: one unit of
+integer rounding (truncation) plus the binary32 error of the at most 15 roundings of the
+float expression (proved: `f32_share_partial`, Props/C16).  The bound of exactly one unit
+holds for exact arithmetic (`exact_share`) but is false for binary32
+(`strict_unit_share_fails`: 250 instead of 251 on 229:157,241:162,17:162 initial 75). -/
 def specShare (p q : Cluster × Int) : Bool :=
   (0 < ratio p.1 ∧ ratio p.1 ≤ ratio q.1) →
     let d := (p.2 : Rat) * ratio q.1 - (q.2 : Rat) * ratio p.1
-    (if d < 0 then -d else d) ≤ ratio q.1
+    (if d < 0 then -d else d) ≤ ratio q.1 * (1 + 1 / 1024)
 
 def oracle (cls : List Cluster) (out : List (Option Int)) : Option String :=
   let l := live cls out
